@@ -6,7 +6,7 @@ from vlib.common import coq_str, coq_bool, coq_list
 THEOREMS = ["C07_page_bound", "C07_unpaginated_complete", "C07_unpaginated_refines_partial", "C07_paginated_refines", "C07_pagination_complete", "C07_delimited_refines", "C07_delimited_pagination_complete", "C07_folder_refines", "C07_folder_refines_bucket", "C07_folder_pagination_complete", "C07_bookkeeping_prefix_empty", "C07_order_refuted",
             "C07_pagination_cycle_refuted", "C07_keyless_directory_refuted"]
 TARGETS = ["Properties/C07.vo", "Check/WalkCheck.vo", "Model/ListApi.vo"]
-SEGS = ["a", "b", "a-", "a.x", "ab", "c", ".sgwtmp", "a!", "d", "b b", "A"]
+SEGS = ["a", "b", "a-", "a.x", "ab", "c", ".sgwtmp", "a!", "d", "b b", "A", ".sgwtmp_old"]
 
 
 class Node:
@@ -150,6 +150,10 @@ CORPUS = [
     (["a/", "a/b"], "a/", "/", "", 1000),
     (["b/a/x", "b/a-"], "b/", "/", "b/a-", 1000),
     ([".sgwtmp/x", "a"], "", "", "", 1000),
+    # names that merely begin like the bookkeeping directory are ordinary keys
+    ([".sgwtmp_old/report", ".sgwtmp2/x", "a"], ".sgwtmp_old/", "", "", 1000),
+    ([".sgwtmp_old/sub/r", ".sgwtmp_old/t"], ".sgwtmp_old/sub/", "/", "", 1000),
+    ([".sgwtmp2/x", ".sgwtmp2/y"], ".sgwtmp2/x", "", "", 1),
 ]
 
 
